@@ -320,10 +320,25 @@ Fixpoint canon_i (cx : ictx) (p n : byte) (i : inline) {struct i} : bool :=
   | IHard _ => x_breaks cx && negb (is_ws_b p) && negb (is_ws_b n)
   | IEm us l =>
     let c := em_char us in
-    nonempty l &&
-    opener_ok c 1 (x_encl cx) p (hd x20 (w_inls tbl l)) &&
-    closer_ok c (last (w_inls tbl l) x20) n &&
-    chain tbl (canon_i (cx_set_encl cx ((c, 1) :: x_encl cx))) c l c
+    let generic :=
+      nonempty l &&
+      opener_ok c 1 (x_encl cx) p (hd x20 (w_inls tbl l)) &&
+      closer_ok c (last (w_inls tbl l) x20) n &&
+      chain tbl (canon_i (cx_set_encl cx ((c, 1) :: x_encl cx))) c l c in
+    match l with
+    | [IStrong us2 l2] =>
+      if Bool.eqb us us2 then
+        (* one run of THREE on each side: emphasis whose only content is strong emphasis written with
+           the same character (6.2: ***strong emph*** is <em><strong>..</strong></em>, also inside a
+           word for the asterisk, where both runs can open and close and the lengths, both multiples of
+           three, are exempt from the rule of three).  The flanking tests are those of the run as a whole *)
+        nonempty l2 &&
+        opener_ok c 3 (x_encl cx) p (hd x20 (w_inls tbl l2)) &&
+        closer_ok c (last (w_inls tbl l2) x20) n &&
+        chain tbl (canon_i (cx_set_encl cx ((c, 3) :: x_encl cx))) c l2 c
+      else generic
+    | _ => generic
+    end
   | IStrong us l =>
     let c := em_char us in
     nonempty l &&
